@@ -24,7 +24,9 @@ import numpy as np
 import pandas as pd
 
 from harness.core import CORPUS_DIR, VERIF, Ctx, HarnessError
-from harness.props.pareto_common import encode_matrix
+from harness.props.pareto_common import encode_matrix, fixed_findings, repairs_for
+
+FIXED = fixed_findings("C11") | fixed_findings("C12")
 
 ANCHORS = [
     "accelforge.mapper.FFM._pareto_df.pareto:makepareto",
@@ -261,6 +263,12 @@ class Checker:
         rep = self.drv.ask("C12", req)
         if "err" in rep:
             raise HarnessError(f"driver error {rep}")
+        if FIXED and rep.get("kinds"):
+            # dtype of the matrix handed to fast_pareto_mask: common dtype of the non-constant classified columns
+            dts = [df[c["name"]].dtype for c, k in zip(req["cols"], rep["kinds"])
+                   if k != "ignored" and len(df) > 1 and not (df[c["name"]].to_numpy() == df[c["name"]].to_numpy()[0]).all()]
+            req["repairs"] = repairs_for(np.result_type(*dts) if dts else np.float32, FIXED)
+            rep = self.drv.ask("C12", req)
         info = {"impl_mask": impl, "model_mask": rep["model"], "spec_mask": rep.get("spec"), "H": rep.get("H"),
                 "kinds": rep.get("kinds")}
         if rep["model"] == "ValueError" or isinstance(impl, str):
